@@ -133,6 +133,7 @@ theorem readPackedInt_encode (w : Nat) (n : Int) (r : Bytes) (h : InRange n) :
     have : (0x80000000 : UInt32).toNat = 2 ^ 31 := by decide
     omega
   unfold encodePackedIntW
+  rw [if_pos habs]
   rw [packedBytes_read _ _ _ r hm (by split <;> decide) (by omega)]
   simp only [signed, asI32_ofNat _ habs]
   by_cases hn : n < 0
